@@ -98,6 +98,8 @@ const HELPERS: &[(&str, &str)] = &[
     ("vfill2", "(define (vfill2 v i x) (vector-set! v i x) (vfill! v (+ i 1) x))"),
     ("vfill!", "(define (vfill! v i x) (if (< i (vector-length v)) (vfill2 v i x) x))"),
     ("make-ctr0", "(define (make-ctr0) (define n 0) (lambda () (set! n (+ n 1)) n))"),
+    ("rest-id", "(define (rest-id . r) r)"),
+    ("pair-up", "(define (pair-up a . r) (cons a r))"),
     (
         "make-chain",
         "(define (make-chain n next) (lambda () (set! n (+ n 1)) (if (procedure? next) (next) n)))",
@@ -1028,6 +1030,33 @@ impl Gen {
                 }
                 true
             }
+            34 => {
+                let vs = self.names_with(Role::Vec);
+                if vs.is_empty() || self.names_with(Role::VecList).len() >= 4 {
+                    return false;
+                }
+                let a = self.rng.pick(&vs).clone();
+                let b = self.rng.pick(&vs).clone();
+                let name = self.fresh("l");
+                let v = self.rng.upto(3);
+                let sx = match v {
+                    0 => {
+                        self.need("rest-id");
+                        call("rest-id", vec![sym(&a), sym(&b)])
+                    }
+                    1 => {
+                        self.need("rest-id");
+                        call("apply", vec![sym("rest-id"), sym(&a), call("cons", vec![sym(&b), quote(list(vec![]))])])
+                    }
+                    _ => {
+                        self.need("pair-up");
+                        call("apply", vec![sym("pair-up"), call("cons", vec![sym(&a), call("cons", vec![sym(&b), quote(list(vec![]))])])])
+                    }
+                };
+                self.roles.insert(name.clone(), Role::VecList);
+                self.emit(list(vec![sym("define"), sym(&name), sx]), "mk-veclist-through-rest-args", vec![a, b, name], false);
+                true
+            }
             29 => {
                 // a closure stored in a vector slot, then called through the slot
                 let Some((path, id, mut roots)) = self.vec_path() else { return false };
@@ -1513,6 +1542,54 @@ impl Gen {
                     }
                 }
             }
+            9 => {
+                // the fault is an operand of a call that is itself in tail position
+                if !int_valued {
+                    return None;
+                }
+                self.need("f2");
+                let name = self.fresh("tx");
+                let mut body = self.pre_effects();
+                body.push(call("f2", vec![e, int(1)]));
+                define_proc(self, &name, vec![], body);
+                Some((list(vec![sym(&name)]), "operand-of-tail-call".into(), true))
+            }
+            10 => {
+                // the fault is the test of a conditional
+                let name = self.fresh("tx");
+                let mut body = self.pre_effects();
+                body.push(list(vec![sym("if"), e, int(1), int(2)]));
+                define_proc(self, &name, vec![], body);
+                Some((list(vec![sym(&name)]), "if-test".into(), true))
+            }
+            11 => {
+                // inside the procedure given to map (no host notes here: the order in which map
+                // applies its procedure is left open)
+                if !int_valued {
+                    return None;
+                }
+                let n = self.rng.range(2, 5);
+                let k = self.rng.range(1, n);
+                let items: Vec<Sx> = (1..=n).map(int).collect();
+                Some((
+                    call(
+                        "car",
+                        vec![call(
+                            "map",
+                            vec![
+                                list(vec![
+                                    sym("lambda"),
+                                    list(vec![sym("x")]),
+                                    list(vec![sym("if"), call("=", vec![sym("x"), int(k)]), e, sym("x")]),
+                                ]),
+                                quote(list(items)),
+                            ],
+                        )],
+                    ),
+                    "map".into(),
+                    true,
+                ))
+            }
             8 => {
                 // many frames between the fault and the top level, none of them a tail call
                 if !int_valued {
@@ -1562,7 +1639,7 @@ impl Gen {
         let depth = self.rng.pick_weighted(&[2, 5, 3]);
         let mut top = depth == 0;
         for _ in 0..depth {
-            let ctx = self.rng.upto(9);
+            let ctx = self.rng.upto(12);
             if let Some((ne, label, iv)) = self.wrap(e.clone(), ctx, int_valued) {
                 e = ne;
                 int_valued = iv;
@@ -1603,7 +1680,7 @@ pub fn generate_a(seed: u64, quick: bool, faults: bool) -> Value {
     let hash_seed = rng.next_u64() | 1;
     // swarm configuration
     let steps = if quick { rng.range(10, 40) } else { rng.range(10, 60) } as usize;
-    let nops = 34;
+    let nops = 35;
     let mut weights: Vec<u32> = (0..nops).map(|_| if rng.chance(1, 4) { 0 } else { rng.range(1, 6) as u32 }).collect();
     if weights.iter().all(|w| *w == 0) {
         weights[0] = 1;
